@@ -210,25 +210,25 @@ func observeContents(swamp string) []recObs {
 func cmpTerm(f *hydrapb.TreasureFilter) string {
 	switch cv := f.GetCompareValue().(type) {
 	case *hydrapb.TreasureFilter_Int8Val:
-		return "(CInt " + common.Z(int64(cv.Int8Val)) + ")"
+		return "(CInt 8 " + common.Z(int64(cv.Int8Val)) + ")"
 	case *hydrapb.TreasureFilter_Int16Val:
-		return "(CInt " + common.Z(int64(cv.Int16Val)) + ")"
+		return "(CInt 16 " + common.Z(int64(cv.Int16Val)) + ")"
 	case *hydrapb.TreasureFilter_Int32Val:
-		return "(CInt " + common.Z(int64(cv.Int32Val)) + ")"
+		return "(CInt 32 " + common.Z(int64(cv.Int32Val)) + ")"
 	case *hydrapb.TreasureFilter_Int64Val:
-		return "(CInt " + common.Z(cv.Int64Val) + ")"
+		return "(CInt 64 " + common.Z(cv.Int64Val) + ")"
 	case *hydrapb.TreasureFilter_Uint8Val:
-		return "(CUint " + common.N(uint64(cv.Uint8Val)) + ")"
+		return "(CUint 8 " + common.N(uint64(cv.Uint8Val)) + ")"
 	case *hydrapb.TreasureFilter_Uint16Val:
-		return "(CUint " + common.N(uint64(cv.Uint16Val)) + ")"
+		return "(CUint 16 " + common.N(uint64(cv.Uint16Val)) + ")"
 	case *hydrapb.TreasureFilter_Uint32Val:
-		return "(CUint " + common.N(uint64(cv.Uint32Val)) + ")"
+		return "(CUint 32 " + common.N(uint64(cv.Uint32Val)) + ")"
 	case *hydrapb.TreasureFilter_Uint64Val:
-		return "(CUint " + common.N(cv.Uint64Val) + ")"
+		return "(CUint 64 " + common.N(cv.Uint64Val) + ")"
 	case *hydrapb.TreasureFilter_Float32Val:
-		return "(CFloat " + common.N(math.Float64bits(float64(cv.Float32Val))) + ")"
+		return "(CFloat 32 " + common.N(math.Float64bits(float64(cv.Float32Val))) + ")"
 	case *hydrapb.TreasureFilter_Float64Val:
-		return "(CFloat " + common.N(math.Float64bits(cv.Float64Val)) + ")"
+		return "(CFloat 64 " + common.N(math.Float64bits(cv.Float64Val)) + ")"
 	case *hydrapb.TreasureFilter_StringVal:
 		return "(CStr " + cstr(cv.StringVal) + ")"
 	case *hydrapb.TreasureFilter_BoolVal:
@@ -361,7 +361,7 @@ func runQueryCase(swamp string, q reqSpec, contents []recObs, phase string) case
 func runScenario(id int, r *common.Rng, nq int, allowRaw bool) []caseOut {
 	swamp := fmt.Sprintf("c08/s%d/w", id)
 	ties := r.Chance(30)
-	n := 2 + r.Intn(11)
+	n := 4 + r.Intn(13)
 	live := map[string]bool{}
 	nextKey := 0
 	newKV := func(key string, fresh bool) *hydrapb.KeyValuePair {
@@ -448,6 +448,7 @@ func main() {
 	args := common.ParseArgs()
 	rig.Quiet()
 	run := common.NewRun(args, "C08", "HV.Query.Routes")
+	run.Shard = 100
 	run.Meta.Rule = "a case is non-trivial when at least one of the two routes returned a record"
 	root, _ := os.MkdirTemp("", "c08")
 	defer os.RemoveAll(root)
